@@ -708,6 +708,9 @@ func (v *Verifier) execInstr(fn *ssa.Function, s *State, ins ssa.Instruction, fc
 		}
 		v.set(s, t, v.heapAlloc(s, et, t.Comment))
 	case *ssa.Store:
+		if fv, ok := t.Addr.(*ssa.FreeVar); ok {
+			v.concurrentWriteVar(s, fv, t.Pos())
+		}
 		addr := v.reg(s, t.Addr)
 		val := v.reg(s, t.Val)
 		v.storeThrough(s, addr, val, t.Pos())
@@ -813,6 +816,7 @@ func (v *Verifier) execInstr(fn *ssa.Function, s *State, ins ssa.Instruction, fc
 	case *ssa.Lookup:
 		v.execLookup(s, t)
 	case *ssa.MapUpdate:
+		v.concurrentWrite(s, t.Map, t.Pos())
 		m := v.reg(s, t.Map)
 		k := v.reg(s, t.Key)
 		val := v.reg(s, t.Value)
@@ -1536,7 +1540,13 @@ func (v *Verifier) siteAssertsBefore(fn *ssa.Function, ins ssa.Instruction) []*S
 					}
 				}
 				if !placed {
-					v.abort("CONTRACT-STALE: assert: no source line of %s contains %q", funcRef(fn), sa.Match)
+					// the program point the clause is attached to no longer exists: an assumption is simply not made;
+					// an assertion is reported as failed at function entry (it can no longer be shown to hold)
+					if !sa.Assume && len(fn.Blocks) > 0 && len(fn.Blocks[0].Instrs) > 0 {
+						lost := &SiteAssert{Match: sa.Match, Expr: &Expr{Op: "false", Text: "false"}, Text: "program point \"" + sa.Match + "\" not found for: " + sa.Text, Props: sa.Props}
+						first := fn.Blocks[0].Instrs[0]
+						m[first] = append(m[first], lost)
+					}
 				}
 			}
 		}
@@ -1557,6 +1567,31 @@ func (v *Verifier) runSiteAsserts(fn *ssa.Function, s *State, fc *frameCells, sa
 	for _, sa := range sas {
 		ev := v.newEval(s, fn, fc, evalLoop)
 		ev.loop = inner
+		if sa.Assume {
+			s.assume(ev.boolExpr(sa.Expr))
+			v.assumptions["assumed at \""+sa.Match+"\" in "+funcRef(fn)+": "+sa.Text] = true
+			continue
+		}
 		v.addOb(s, "assert", pos, ev.boolExpr(sa.Expr), "assert "+sa.Text, sa.Props)
 	}
+}
+
+
+// concurrentWrite: a function declared `concurrent` (it may run in parallel with itself) must hold some lock whenever
+// it writes a variable it captured by reference or a map held in such a variable.
+func (v *Verifier) concurrentWrite(s *State, m ssa.Value, pos token.Pos) {
+	u, ok := m.(*ssa.UnOp)
+	if !ok {
+		return
+	}
+	if fv, ok := u.X.(*ssa.FreeVar); ok {
+		v.concurrentWriteVar(s, fv, pos)
+	}
+}
+
+func (v *Verifier) concurrentWriteVar(s *State, fv *ssa.FreeVar, pos token.Pos) {
+	if v.topC == nil || !v.topC.Concurrent || s.frame == nil || s.frame.fn != v.top {
+		return
+	}
+	v.addOb(s, "lock", pos, Bool(len(s.held) > 0), "concurrent closure writes captured variable "+fv.Name()+" without holding a lock", v.topC.Props)
 }
